@@ -740,19 +740,52 @@ class PteraTransformer(NodeTransformer):
                 )
             return accum
 
+        def _unpack(target):
+            # Unpack into temporary variables with a real unpacking
+            # assignment (so that any iterable, starred and nested targets
+            # work as usual), then set each variable from its temporary.
+            stmts = []
+
+            def _rename(tgt):
+                if isinstance(tgt, (ast.Tuple, ast.List)):
+                    return type(tgt)(
+                        elts=[_rename(elt) for elt in tgt.elts],
+                        ctx=ast.Store(),
+                    )
+                elif isinstance(tgt, ast.Starred):
+                    return ast.Starred(
+                        value=_rename(tgt.value), ctx=ast.Store()
+                    )
+                else:
+                    tmp = _gensym()
+                    stmts.extend(
+                        self.visit_Assign(
+                            ast.copy_location(
+                                ast.Assign(
+                                    targets=[tgt],
+                                    value=ast.Name(id=tmp, ctx=ast.Load()),
+                                ),
+                                node,
+                            )
+                        )
+                    )
+                    return ast.Name(id=tmp, ctx=ast.Store())
+
+            unpack = ast.copy_location(
+                ast.Assign(
+                    targets=[_rename(target)],
+                    value=self.visit(node.value),
+                ),
+                node,
+            )
+            return [unpack, *stmts]
+
         targets = node.targets
         if len(targets) > 1:
             return _decompose(targets, lambda value, i: value)
 
-        elif isinstance(targets[0], ast.Tuple):
-            return _decompose(
-                targets[0].elts,
-                lambda value, i: ast.Subscript(
-                    value=value,
-                    slice=ast.Index(value=ast.Constant(i)),
-                    ctx=ast.Load(),
-                ),
-            )
+        elif isinstance(targets[0], (ast.Tuple, ast.List)):
+            return _unpack(targets[0])
         else:
             return self.make_interaction(
                 targets[0], None, self.visit(node.value), orig=node
